@@ -15,9 +15,12 @@ from concurrent.futures import ThreadPoolExecutor
 from typing import Dict, Iterable, List, Optional, Sequence, Tuple
 
 VERIF = "/verif"
-REPO = "/repo"
+# Development aid only (tools/seed_round.py runs the checks against scratch worktrees in parallel): the three
+# variables below redirect the checks to another copy of the repository.  The registered commands never set them.
+REPO = os.environ.get("VERIF_REPO", "/repo")
+OUT = os.environ.get("VERIF_OUT", VERIF)                      # evidence/ and replay/ are written under OUT
 BUILD = os.path.join(VERIF, ".build")
-CARGO_TARGET = os.path.join(BUILD, "cargo")
+CARGO_TARGET = os.environ.get("VERIF_CARGO_TARGET", os.path.join(BUILD, "cargo"))
 OCAML_DIR = os.path.join(BUILD, "ocaml")
 MODEL_DRIVER = os.path.join(OCAML_DIR, "model_driver")
 COQ = os.path.join(VERIF, "coq")
@@ -52,10 +55,28 @@ class Lock:
 # --------------------------------------------------------------------------
 # builds
 # --------------------------------------------------------------------------
+def harness_dir() -> str:
+    hd = os.path.join(VERIF, "harness")
+    if REPO == "/repo":
+        return hd
+    # scratch copy of the harness whose path dependency points at the scratch repository
+    d = os.path.join(CARGO_TARGET, "harness_src")
+    if os.path.exists(d):
+        shutil.rmtree(d)
+    shutil.copytree(hd, d)
+    t = open(os.path.join(d, "Cargo.toml")).read().replace('path = "/repo"', 'path = "%s"' % REPO)
+    open(os.path.join(d, "Cargo.toml"), "w").write(t)
+    return d
+
+
+def cargo_lock_name() -> str:
+    return "cargo.lock" if REPO == "/repo" else "cargo_%s.lock" % re.sub(r"\W", "_", CARGO_TARGET)
+
+
 def build_harness(profiles: Sequence[str]) -> None:
     """cargo build of the harness (and therefore of /repo's current working tree)."""
-    hd = os.path.join(VERIF, "harness")
-    with Lock("cargo.lock"):
+    with Lock(cargo_lock_name()):
+        hd = harness_dir()
         shutil.copyfile(os.path.join(REPO, "Cargo.lock"), os.path.join(hd, "Cargo.lock"))
         for p in profiles:
             args = ["cargo", "build", "--offline", "-q", "--bin", "impl_driver", "--bin", "zoracle"]
@@ -77,8 +98,8 @@ class BuildError(Exception):
 
 def build_sendsync() -> Tuple[bool, str]:
     """compile-time assertion AsepriteFile: Send + Sync (a two-line binary of its own)"""
-    hd = os.path.join(VERIF, "harness")
-    with Lock("cargo.lock"):
+    with Lock(cargo_lock_name()):
+        hd = harness_dir()
         r = subprocess.run(["cargo", "build", "--offline", "-q", "--bin", "sendsync"], cwd=hd, env=ENV, stdout=subprocess.PIPE,
                            stderr=subprocess.PIPE, text=True, timeout=1800)
     return r.returncode == 0, r.stderr[-3000:]
@@ -403,7 +424,7 @@ class Verdict:
         self.known_hits: List[str] = []
         self.coverage: dict = {}
         self.assumptions: List[str] = []
-        self.replay_dir = os.path.join(VERIF, "replay")
+        self.replay_dir = os.path.join(OUT, "replay")
         os.makedirs(self.replay_dir, exist_ok=True)
 
     def violation(self, name: str, payload: dict, data: Optional[bytes] = None, no_input: bool = False) -> str:
@@ -428,8 +449,8 @@ class Verdict:
             "coverage": self.coverage, "assumptions": self.assumptions,
             "wall_s": round(time.time() - self.t0, 2), "violations": len(self.violations),
         }
-        os.makedirs(os.path.join(VERIF, "evidence"), exist_ok=True)
-        with open(os.path.join(VERIF, "evidence", self.prop_id + ".json"), "w") as f:
+        os.makedirs(os.path.join(OUT, "evidence"), exist_ok=True)
+        with open(os.path.join(OUT, "evidence", self.prop_id + ".json"), "w") as f:
             json.dump(ev, f, indent=1, default=str)
         for k in self.known_hits:
             print("KNOWN-FINDING: property=%s %s" % (self.prop_id, k))
